@@ -1,5 +1,6 @@
 pub mod cards;
 pub mod deals;
 pub mod mrank;
+pub mod notation;
 pub mod par;
 pub mod report;
